@@ -91,8 +91,11 @@ func enumCore(ex exclusions, rec *ev.Rec, yield func(Case) bool) {
 				total *= len(lists[i])
 			}
 			for _, fallback := range []bool{false, true} {
-				for _, place := range []string{"wrap", "loop"} {
+				for _, place := range []string{"wrap", "loop", "slotfor", "slotfor1"} {
 					for _, twice := range []bool{false, true} {
+						if twice && (place == "slotfor" || place == "slotfor1") {
+							continue
+						}
 						for code := 0; code < total; code++ {
 							variant++
 							k := 0
@@ -122,6 +125,10 @@ func enumCore(ex exclusions, rec *ev.Rec, yield func(Case) bool) {
 								uses = append(uses, useSpec{name: set[0], place: other, fallback: fallback})
 							}
 							c := Case{Comps: map[string]Comp{}, Data: fixedData(variant), Compact: variant%3 == 0, Short: variant%4 == 1}
+							if (place == "slotfor" || place == "slotfor1") && variant%3 == 0 {
+								// the second instance loops over an empty list
+								c.Data["plist2"], c.Data["prows2"] = vals.List("[]any"), vals.List("[]any")
+							}
 							shape := []string{"div", "div", "flat", "template", "div"}[variant%5]
 							b.pageIfOnly = ex.tmplRoot && shape == "template"
 							c.Comps[ci.file] = b.leaf(ci, uses, variant%2 == 0, nil, shape)
@@ -164,7 +171,7 @@ func enumEdge(yield func(Case) bool) {
 				continue
 			}
 			for _, kind := range []string{"if-false", "for-empty", "if-false-scoped"} {
-				for _, place := range []string{"wrap", "loop"} {
+				for _, place := range []string{"wrap", "loop", "slotfor"} {
 					variant++
 					k := variant
 					b := &builder{ch: fixedCh{&k}}
@@ -179,7 +186,7 @@ func enumEdge(yield func(Case) bool) {
 					case "for-empty":
 						kid = Node{K: "el", Tag: "b", M: "e1", For: &For{Item: "ee", List: "pempty"}, Kids: []Node{{K: "text", T: []Part{{L: "X1"}}}}}
 					default:
-						if f.scope != "var" || place == "loop" {
+						if f.scope != "var" || place != "wrap" {
 							continue
 						}
 						// item is prec2 for the instance below, whose ok is false
@@ -240,12 +247,12 @@ func genLeafInfo(t *rapid.T, idx int, elem string, short bool) (compInfo, []useS
 		ci.slots[name] = slotInfo{props: ps}
 		n := rapid.SampledFrom([]int{1, 1, 1, 2}).Draw(t, "uses")
 		for j := 0; j < n; j++ {
-			u := useSpec{name: name, place: rapid.SampledFrom([]string{"wrap", "wrap", "loop", "bare"}).Draw(t, "place"), fallback: rapid.Bool().Draw(t, "fallback")}
+			u := useSpec{name: name, place: rapid.SampledFrom([]string{"wrap", "wrap", "loop", "bare", "slotfor", "slotfor1"}).Draw(t, "place"), fallback: rapid.Bool().Draw(t, "fallback")}
 			at := rapid.IntRange(0, len(uses)).Draw(t, "at")
 			uses = append(uses, useSpec{})
 			copy(uses[at+1:], uses[at:])
 			uses[at] = u
-			if j > 0 || u.place == "loop" {
+			if j > 0 || u.place == "loop" || u.place == "slotfor" || u.place == "slotfor1" {
 				ci.multi[name] = true
 			}
 		}
@@ -463,8 +470,8 @@ func genOuter(t *rapid.T, b *builder, c *Case, leaves []compInfo, elem, shape st
 	for _, name := range direct {
 		k3.order = append(k3.order, name)
 		k3.slots[name] = slotInfo{props: rapid.SampledFrom(propSets).Draw(t, "props")}
-		u := useSpec{name: name, place: rapid.SampledFrom([]string{"wrap", "loop", "bare"}).Draw(t, "place"), fallback: rapid.Bool().Draw(t, "fallback")}
-		k3.multi[name] = u.place == "loop"
+		u := useSpec{name: name, place: rapid.SampledFrom([]string{"wrap", "loop", "bare", "slotfor", "slotfor1"}).Draw(t, "place"), fallback: rapid.Bool().Draw(t, "fallback")}
+		k3.multi[name] = u.place != "wrap" && u.place != "bare"
 		uses = append(uses, u)
 	}
 	// forwarded names: not used directly
